@@ -861,6 +861,11 @@ class Explorer:
         unk = [r for r in rs if r[0] == "unknown"]
         if sat:
             v, model, path, note = sat[0]
+            if callable(replay):
+                try:
+                    replay = replay(model or {})
+                except Exception:
+                    replay = None
             raise Refuted("cex", "counter-model on %d of %d paths; first: %s\nnote: %s\ndecisions: %s" % (
                 len(sat), len(rs), model, note, path), inputs=model, replay=replay)
         if unk:
